@@ -76,6 +76,52 @@ pub(crate) mod verif_stats {
         std::mem::forget(r);
     }
 
+    // ---- rely/guarantee: other emitters update the same counters concurrently (hook H3). Before
+    // every access of a counter the shim lets "the others" add an arbitrary amount and records it
+    // in a ghost total. An increment implemented as ONE atomic read-modify-write satisfies the
+    // triple below for every interference; read-then-write loses what was added in between.
+    use crate::verif_shim::atomic::interfered::INTERFERE;
+
+    fn others(st: &SocketStats) -> [u64; 4] {
+        [st.bytes_sent.ghost_others(), st.packets_sent.ghost_others(), st.bytes_dropped.ghost_others(), st.packets_dropped.ghost_others()]
+    }
+    fn quiescent(st: &SocketStats) -> [u64; 4] {
+        INTERFERE.store(false, Ordering::SeqCst);   // the moment at which no send is in progress
+        snapshot(st)
+    }
+
+    //@H name=c14_update_ok_concurrent props=C14,C20 fn=SocketStats::update,incr_bytes_sent,incr_packets_sent :: under ARBITRARY concurrent additions by other emitters to the same counters, an accepted send still adds exactly (+w, +1) and nothing the others added is lost
+    #[kani::proof]
+    fn c14_update_ok_concurrent() {
+        let (st, b) = any_stats();
+        let w: usize = kani::any();
+        INTERFERE.store(true, Ordering::SeqCst);
+        let r = st.update(Ok(w), kani::any());
+        let a = quiescent(&st);
+        let o = others(&st);
+        assert!(a[0] == b[0].wrapping_add(o[0]).wrapping_add(w as u64), "[C14] bytes_sent is exact under concurrent emitters: this send's bytes and every concurrent addition are all counted (one atomic read-modify-write per update)");
+        assert!(a[1] == b[1].wrapping_add(o[1]).wrapping_add(1), "[C14] packets_sent is exact under concurrent emitters");
+        assert!(a[2] == b[2].wrapping_add(o[2]) && a[3] == b[3].wrapping_add(o[3]), "[C14] an accepted send never disturbs the dropped counters, also under concurrent updates");
+        kani::cover!(o[0] != 0 && o[1] != 0, "interference happened");
+        std::mem::forget(r);
+    }
+
+    //@H name=c14_update_err_concurrent props=C14,C20 fn=SocketStats::update,incr_bytes_dropped,incr_packets_dropped :: under ARBITRARY concurrent additions by other emitters, a refused send still adds exactly (+len, +1) to the dropped counters and nothing the others added is lost
+    #[kani::proof]
+    fn c14_update_err_concurrent() {
+        let (st, b) = any_stats();
+        let len: usize = kani::any();
+        INTERFERE.store(true, Ordering::SeqCst);
+        let r = st.update(Err(io::Error::from(io::ErrorKind::WouldBlock)), len);
+        let a = quiescent(&st);
+        let o = others(&st);
+        assert!(a[2] == b[2].wrapping_add(o[2]).wrapping_add(len as u64), "[C14] bytes_dropped is exact under concurrent emitters");
+        assert!(a[3] == b[3].wrapping_add(o[3]).wrapping_add(1), "[C14] packets_dropped is exact under concurrent emitters");
+        assert!(a[0] == b[0].wrapping_add(o[0]) && a[1] == b[1].wrapping_add(o[1]), "[C14] a refused send never disturbs the sent counters, also under concurrent updates");
+        kani::cover!(o[2] != 0 && o[3] != 0, "interference happened");
+        std::mem::forget(r);
+    }
+
     //@H name=c14_clone_shares props=C14 fn=SocketStats::clone :: a cloned SocketStats (the one handed to the write adapter) shares the four counters with the original
     #[kani::proof]
     fn c14_clone_shares() {
